@@ -16,20 +16,20 @@ Section C09.
      its LEAF is closed before a single request is read: the whole trace is [close] — no registration, no handler call,
      no reply — whatever the client sends and whatever names the other certificates of the chain carry *)
   Theorem C09_rejected_runs_nothing : forall ss hs chain input,
-    admitted ss (Some chain) = false ->
+    let_in ss (Some chain) = false ->
     trace hstate (serve hstate handle regexp_src fw_text ss hs (Some chain) input) = [EvClose].
   Proof. exact (serve_rejected hstate handle regexp_src fw_text). Qed.
 
-  (* ... and admission looks at the leaf only: *)
+  (* ... and entry looks at the leaf only: *)
   Theorem C09_leaf_only : forall cn leaf rest cfg app, cn <> [] ->
-    admitted {| ss_config := cfg; ss_auths := [ACert cn]; ss_app := app |} (Some (leaf :: rest)) = bytes_eqb leaf cn.
+    let_in {| ss_config := cfg; ss_auths := [ACert cn]; ss_app := app |} (Some (leaf :: rest)) = bytes_eqb leaf cn.
   Proof.
-    intros cn leaf rest cfg app Hcn. unfold admitted, authenticate, initial_cstate. cbn [ss_auths forallb authr_ok cs_tls].
+    intros cn leaf rest cfg app Hcn. unfold let_in, authenticate, initial_cstate. cbn [ss_auths forallb authr_ok cs_tls].
     destruct cn; [congruence|]. rewrite Bool.andb_true_r. reflexivity.
   Qed.
 
   Theorem C09_no_certificate_refused : forall cn cfg app,
-    admitted {| ss_config := cfg; ss_auths := [ACert cn]; ss_app := app |} (Some []) = false.
+    let_in {| ss_config := cfg; ss_auths := [ACert cn]; ss_app := app |} (Some []) = false.
   Proof. intros. reflexivity. Qed.
 End C09.
 
@@ -50,7 +50,7 @@ Print Assumptions C09_failed_handshake_contained.
 
 Example C09_ex :
   let ss := {| ss_config := []; ss_auths := [ACert (B"trusted-client")]; ss_app := [] |} in
-  admitted ss (Some [B"mallory-sub"; B"trusted-client"; B"verif-ca"]) = false /\      (* the name only on an intermediate *)
-  admitted ss (Some [B"trusted-client"; B"neutral-intermediate"]) = true /\
-  admitted ss None = true.                                                            (* the plain port has no certificate gate *)
+  let_in ss (Some [B"mallory-sub"; B"trusted-client"; B"verif-ca"]) = false /\      (* the name only on an intermediate *)
+  let_in ss (Some [B"trusted-client"; B"neutral-intermediate"]) = true /\
+  let_in ss None = true.                                                            (* the plain port has no certificate gate *)
 Proof. vm_compute. auto. Qed.
